@@ -650,6 +650,30 @@ func (s *sim) checkScheduleLookups() {
 			return
 		}
 	}
+	// a second chain on the SAME configuration (another genesis validators root): its decoder answers with
+	// that chain's digests, and the first chain's decoder still with its own
+	{
+		other := fnvRoot("another-chain", s.cfg.Seed)
+		dec2 := beacon.NewForkDecoder(&sp, other)
+		for e := range probe {
+			want := forkAt(e)
+			rt := forkDataRoot(versions[want], other)
+			var d2 common.ForkDigest
+			copy(d2[:], rt[:4])
+			if got := dec2.ForkDigest(common.Epoch(e)); got != d2 {
+				s.viol("C14", "fork-decoder-digest/second-chain-on-the-same-spec", fmt.Sprintf("a decoder made for genesis validators root %s after one for %s on the same Spec: ForkDigest(epoch %d) = %s, that chain's digest is %s", other, w.gvr, e, got, d2))
+				return
+			}
+			if _, err := dec2.BlockAllocator(d2); err != nil && want < len(pkgs) { // (the library has no fulu block type)
+				s.viol("C14", "fork-decoder-allocator/second-chain-on-the-same-spec", fmt.Sprintf("the second chain's decoder has no allocator for its own digest at epoch %d: %v", e, err))
+				return
+			}
+			if got := dec.ForkDigest(common.Epoch(e)); got != digestOf(want) {
+				s.viol("C14", "fork-decoder-digest/second-chain-on-the-same-spec", fmt.Sprintf("the first chain's decoder changed its answer after a second decoder was made on the same Spec (epoch %d)", e))
+				return
+			}
+		}
+	}
 	var unknown common.ForkDigest
 	nsf := fnvRoot("no-such-fork", s.cfg.Seed)
 	copy(unknown[:], nsf[:4])
